@@ -23,25 +23,26 @@ Property theorems over the executable model `PvModel.Mkracc` (helper lemmas in
   (`msgSeq_refines_useSeq`, `transfer_messages_within_each_grant`,
   `transfer_messages_recipients_on_allow_list_when_kept`, `no_grant_nothing_charged`).
 
-The allow-list clause ("every recipient is on the grant's allow list if it has one") is FALSE
-of the code as found: `Accept` returns `Updated: &MarkerTransferAuthorization{TransferLimit:
-limitLeft}` without the `AllowList` (x/marker/types/authz.go:57), so after one partial use any
-recipient is accepted. `allowlist_dropped_after_partial_use` is the 2-transfer witness (replayed
-on the real `Accept` and through the real msg server: known_findings.json),
-`first_recipient_on_allow_list_partial` is what does hold, and
-`recipients_on_allow_list_when_kept` / `transfers_recipients_on_allow_list_when_kept` prove the
-full clause for the one-field repair. `allow_list_clause_current_code` states whichever of the
-two applies to `PvModel.Mkracc.keepAllowListOnUpdate`.
+* sign of the amounts: `Accept` never takes a negative amount (`accepted_use_nonneg`: `sdk.NewCoins`
+  panics inside `SafeSub`), a negative transfer message is refused (`transfer_msg_amount_nonneg`),
+  so the bound holds of the sum of the POSITIVE amounts and of each single amount
+  (`limit_never_exceeded_pos`, `transfer_messages_within_each_grant_pos`);
+* histories of messages on one marker through its whole life cycle ("in the marker's CURRENT
+  status"): `PvProofs/C12Hist.lean`.
 
-A second clause is FALSE of the code as found: `AddAccess` / `DeleteAccess` accept a caller for
-whom `accountControlsAllSupply` answers yes, and that function compares the caller's balance
-with the RECORDED supply (marker.go:868) — 0 for every marker created with amount 0, for ever
-when the supply floats — so any account with a zero balance may rewrite the access list of such
-a finalized/active marker. `anyone_takes_over_zero_supply_marker` is the 4-message witness
-(replayed through the real msg server), `supply_control_is_documented_partial` /
-`access_change_needs_real_credential_partial` what holds, `…_when_repaired` the full clause for
-the repair, `supply_control_clause_current_code` whichever applies to
-`PvModel.Mkracc.supplyControlViaBank`.
+Two clauses were FALSE of the code as found and have been repaired in the repository; the model
+carries one switch per repair, both now `true`:
+* the allow-list clause — `Accept` used to return `Updated` without the `AllowList`
+  (x/marker/types/authz.go:57, fixed by 599e8c764). `recipients_on_allow_list_when_kept` /
+  `transfers_recipients_on_allow_list_when_kept` / `transfer_messages_recipients_on_allow_list_when_kept`
+  are the clause for the code as it is (`allow_list_clause_current_code` selects that branch);
+  `allowlist_dropped_after_partial_use` (the 2-transfer witness of the finding) and
+  `first_recipient_on_allow_list_partial` remain as statements about the unrepaired variant.
+* the whole-supply credential of `AddAccess` / `DeleteAccess` — `accountControlsAllSupply` used to
+  compare the caller's balance with the RECORDED supply (marker.go:868, fixed by a784a9d34).
+  `supply_control_is_documented` is the clause for the code as it is;
+  `vacuous_supply_control` / `anyone_takes_over_zero_supply_marker` remain as the witness of the
+  finding on the unrepaired variant.
 -/
 import PvModel.MkraccSpec
 import PvProofs.Lemmas.MkraccCoins
@@ -89,11 +90,20 @@ theorem op_succeeds_only_with_right (op : Op) (c : Cfg) (e : Env) (h : runOp op 
   · exact Or.inr h
   · exact Or.inl h.2.1
 
-/-- The only success without a credential changes nothing: `Cancel` on a cancelled marker. -/
-theorem cancel_noop_changes_nothing (op : Op) (c : Cfg) (h : noop op c = true) :
-    op = .cancel ∧ cancelChangesState c = false := by
-  simp only [noop, Bool.and_eq_true, beq_iff_eq] at h
-  exact ⟨h.1, by simp [cancelChangesState, h.2]⟩
+/-- **The only success without a documented credential is `Cancel` on an already cancelled
+marker** — and that one writes nothing (`cancel_of_cancelled_marker_is_identity` in
+`PvProofs.C12Hist`: the state after it IS the state before, for every state and caller). -/
+theorem success_without_credential_is_cancel_of_cancelled (op : Op) (c : Cfg) (e : Env)
+    (h : runOp op c e = .ok ()) (hna : authorised op c = false) :
+    op = .cancel ∧ c.status = .cancelled ∧ cancelChangesState c = false := by
+  rcases (op_succeeds_iff op c e).mp h with hn | hn
+  · simp only [noop, Bool.and_eq_true, beq_iff_eq] at hn
+    exact ⟨hn.1, hn.2, by simp [cancelChangesState, hn.2]⟩
+  · rw [hna] at hn; exact absurd hn.2.1 (by decide)
+
+-- non-vacuity: anybody may "cancel" a cancelled marker
+example : runOp .cancel (exCfg [] .cancelled .coin) {} = .ok ()
+    ∧ authorised .cancel (exCfg [] .cancelled .coin) = false := by decide
 
 /-- When a handler answers "does not have ACCESS_x", `x` is a right the caller lacks on the
 marker and the one documented for the operation — or it is `deposit` on the restricted marker
@@ -126,28 +136,47 @@ theorem only_documented_rights_matter (op : Op) (c : Cfg) (e : Env) :
 /-! ### The whole-supply credential of `AddAccess` / `DeleteAccess`
 
 `op_succeeds_iff` takes `Cfg.ctlSupply` as given. The code computes it with
-`accountControlsAllSupply`, which compares the caller's balance with the RECORDED supply. The
-documented meaning ("possess 100% of the total supply", marker.go:866) is `holdsWholeSupply`.
-They agree only while the record is positive and equals the coins in existence; a record of 0
-(every marker created with amount 0; for ever when the supply floats) makes every account with
-a zero balance pass — FALSE of the code as found, see `anyone_takes_over_zero_supply_marker`. -/
+`accountControlsAllSupply`; the documented meaning ("possess 100% of the total supply",
+marker.go:866) is `holdsWholeSupply`: the caller holds every coin in existence and there is one. -/
 
-/-- Repaired variant = the documented credential, for all balances / records / supplies. -/
-theorem supply_control_is_documented_when_repaired (bal record circ : Int) :
-    accountControlsAllSupplyWith true bal record circ = holdsWholeSupply bal circ := by
-  simp only [accountControlsAllSupplyWith, holdsWholeSupply, if_true]
+/-- **The whole-supply credential as the code computes it is the documented one**: the caller
+holds every coin in existence and there is at least one — whatever the marker's recorded supply
+says (the record is not looked at: `supply_control_ignores_the_record`). -/
+theorem supply_control_is_documented (bal record circ : Int) :
+    accountControlsAllSupply bal record circ = holdsWholeSupply bal circ
+    ∧ (accountControlsAllSupply bal record circ = true ↔ 0 < circ ∧ bal = circ) := by
+  have h : accountControlsAllSupply bal record circ = holdsWholeSupply bal circ := by
+    simp [accountControlsAllSupply, supplyControlViaBank, accountControlsAllSupplyWith, holdsWholeSupply]
+  refine ⟨h, ?_⟩
+  rw [h]
+  simp only [holdsWholeSupply, Bool.and_eq_true, decide_eq_true_eq, beq_iff_eq]
+  constructor
+  · rintro ⟨h1, h2⟩; exact ⟨h1, h2.symm⟩
+  · rintro ⟨h1, h2⟩; exact ⟨h1, h2.symm⟩
 
-/-- As found: right only while the record is what exists and is positive (fixed supply after
-the first mint). Full statement (no hypotheses) is false: `vacuous_supply_control`. -/
-theorem supply_control_is_documented_partial (bal record circ : Int) (hrec : record = circ)
-    (hpos : 0 < circ) :
-    accountControlsAllSupplyWith false bal record circ = holdsWholeSupply bal circ := by
-  subst hrec
-  simp [accountControlsAllSupplyWith, holdsWholeSupply, hpos]
+/-- A recorded supply of 0, or a stale one, opens nothing any more. -/
+theorem supply_control_ignores_the_record (bal r₁ r₂ circ : Int) :
+    accountControlsAllSupply bal r₁ circ = accountControlsAllSupply bal r₂ circ := by
+  rw [(supply_control_is_documented bal r₁ circ).1, (supply_control_is_documented bal r₂ circ).1]
 
-/-- As found: with a recorded supply of 0 every account with a zero balance "controls all
-supply", however many coins exist and whoever holds them; and with a stale record a holder of
-exactly the recorded amount does. -/
+/-- In particular nobody "controls the supply" of a denom without coins, and a holder of part of
+the coins does not. -/
+theorem no_vacuous_supply_control (bal record : Int) :
+    accountControlsAllSupply bal record 0 = false
+    ∧ ∀ circ, bal ≠ circ → accountControlsAllSupply bal record circ = false := by
+  constructor
+  · cases h : accountControlsAllSupply bal record 0
+    · rfl
+    · have := (supply_control_is_documented bal record 0).2.mp h; omega
+  · intro circ hne
+    cases h : accountControlsAllSupply bal record circ
+    · rfl
+    · exact absurd ((supply_control_is_documented bal record circ).2.mp h).2 hne
+
+/-- HISTORICAL (the code as found, `viaBank = false`; fixed in the repository by a784a9d34, kept as
+the Lean witness of finding C12-vacuous-supply-control): with a recorded supply of 0 every account
+with a zero balance "controlled all supply", however many coins existed and whoever held them; and
+with a stale record a holder of exactly the recorded amount did. -/
 theorem vacuous_supply_control (circ : Int) :
     accountControlsAllSupplyWith false 0 0 circ = true ∧ holdsWholeSupply 0 circ = false
     ∧ accountControlsAllSupplyWith false 5 5 100 = true ∧ holdsWholeSupply 5 100 = false := by
@@ -158,47 +187,23 @@ theorem vacuous_supply_control (circ : Int) :
     simp [h, this]
   · simp [h]
 
-/-- **Witness on the message flow** (replayed on the real msg server, corpus/C12): a marker is
-created with supply 0 and floating supply by `A` (mint + admin); `E`, who holds no right and
-no coin, grants itself every right, mints 9 and withdraws them. -/
+/-- HISTORICAL **witness on the message flow** (replayed on the real msg server, corpus/C12, where
+the repaired code now refuses the second message): a marker is created with supply 0 and floating
+supply by `A` (mint + admin); `E`, who holds no right and no coin, grants itself every right,
+mints 9 and withdraws them — in the variant of the model with the unrepaired function. With the
+function as it is now the same history leaves `E` without any right. -/
 theorem anyone_takes_over_zero_supply_marker :
-    let s := scenRunWith false {} [.create 0 false .coin [.mint, .admin],
+    let ops : List SOp := [.create 0 false .coin [.mint, .admin],
       .add "E" "E" [.mint, .burn, .withdraw, .admin], .mint "E" 9, .withdraw "E" "E" 9]
+    let s := scenRunWith false {} ops
     let s₀ := scenRunWith false {} [.create 0 false .coin [.mint, .admin]]
     s.rightsOf "E" = [.mint, .burn, .withdraw, .admin] ∧ s.balOf "E" = 9
     -- … although in the documented sense `E` held no credential when it changed the access list
     ∧ authorised .addAccess { s₀.cfgWith false "E" with
-        ctlSupply := holdsWholeSupply (s₀.balOf "E") s₀.circulating } = false := by decide
-
-/-- Once repaired, an access-list change on an active marker succeeds only for an administrator
-or the holder of every existing coin — in every state of every history. -/
-theorem access_change_needs_real_credential_when_repaired (s : MState) (by_ to : String)
-    (rights : List Access) (s' : MState) (h : scenStepWith true s (.add by_ to rights) = .ok s') :
-    (s.rightsOf by_).contains .admin = true ∨ holdsWholeSupply (s.balOf by_) s.circulating = true := by
-  simp only [scenStepWith] at h
-  cases hc : addAccess (s.cfgWith true by_) with
-  | error e => rw [hc] at h; cases h
-  | ok u =>
-    have := (op_succeeds_iff .addAccess (s.cfgWith true by_) {}).mp (by simpa [runOp] using hc)
-    simp only [noop, MState.cfgWith, authorised, creds, available, envOk,
-      supply_control_is_documented_when_repaired] at this
-    simp [Cred.holds, restrictedOnly] at this
-    simpa using this
-
-/-- As found, the same holds of states whose record is positive and equals what exists. -/
-theorem access_change_needs_real_credential_partial (s : MState) (by_ to : String)
-    (rights : List Access) (s' : MState) (hrec : s.record = s.circulating) (hpos : 0 < s.circulating)
-    (h : scenStepWith false s (.add by_ to rights) = .ok s') :
-    (s.rightsOf by_).contains .admin = true ∨ holdsWholeSupply (s.balOf by_) s.circulating = true := by
-  simp only [scenStepWith] at h
-  cases hc : addAccess (s.cfgWith false by_) with
-  | error e => rw [hc] at h; cases h
-  | ok u =>
-    have := (op_succeeds_iff .addAccess (s.cfgWith false by_) {}).mp (by simpa [runOp] using hc)
-    simp only [noop, MState.cfgWith, authorised, creds, available, envOk,
-      supply_control_is_documented_partial _ _ _ hrec hpos] at this
-    simp [Cred.holds, restrictedOnly] at this
-    simpa using this
+        ctlSupply := holdsWholeSupply (s₀.balOf "E") s₀.circulating } = false
+    -- the code as it is now
+    ∧ (scenRunWith supplyControlViaBank {} ops).rightsOf "E" = []
+    ∧ (scenRunWith supplyControlViaBank {} ops).balOf "E" = 0 := by decide
 
 /-- The whole-supply clause for whichever variant `supplyControlViaBank` selects. -/
 theorem supply_control_clause_current_code :
@@ -210,39 +215,39 @@ theorem supply_control_clause_current_code :
   · simp only [Bool.false_eq_true, if_false]
     exact ⟨0, 0, 9, (vacuous_supply_control 9).1, (vacuous_supply_control 9).2.1⟩
   · simp only [if_true]
-    exact supply_control_is_documented_when_repaired
-
-/-- Rights change only through `AddAccess` / `DeleteAccess`: mint, burn and withdraw never
-touch the access list (any variant, any state). -/
-theorem only_access_messages_change_rights (viaBank : Bool) (s s' : MState) (op : SOp)
-    (h : scenStepWith viaBank s op = .ok s')
-    (hop : ∀ b t r, op ≠ .add b t r) (hdel : ∀ b w, op ≠ .del b w) (hcr : ∀ a f t r, op ≠ .create a f t r) :
-    s'.rights = s.rights := by
-  cases op with
-  | create a f t r => exact absurd rfl (hcr a f t r)
-  | add b t r => exact absurd rfl (hop b t r)
-  | del b w => exact absurd rfl (hdel b w)
-  | mint b a =>
-    simp only [scenStepWith] at h
-    split at h
-    · cases h
-    · injection h with h; subst h; rfl
-  | burn b a =>
-    simp only [scenStepWith] at h
-    split at h
-    · cases h
-    · split at h
-      · cases h
-      · injection h with h; subst h; rfl
-  | withdraw b t a =>
-    simp only [scenStepWith] at h
-    split at h
-    · cases h
-    · split at h
-      · cases h
-      · injection h with h; subst h; rfl
+    intro bal record circ
+    simp only [accountControlsAllSupplyWith, holdsWholeSupply, if_true]
 
 /-! ## Authz -/
+
+/-- What an accepting `Accept` has checked and what it returns. -/
+theorem acceptWith_inv {keep : Bool} {g g' : Grant} {u : Use} {del : Bool}
+    (h : acceptWith keep g u = .accept del g') :
+    0 ≤ u.amount
+    ∧ Coins.nonneg (Coins.sub g.limit [(u.denom, u.amount)]) = true
+    ∧ (g.allow.isEmpty = true ∨ g.allow.contains u.to = true)
+    ∧ del = Coins.isZero (Coins.sub g.limit [(u.denom, u.amount)])
+    ∧ g' = { limit := Coins.sub g.limit [(u.denom, u.amount)], allow := if keep then g.allow else [] } := by
+  unfold acceptWith at h
+  split at h
+  · cases h
+  · rename_i hneg
+    simp only at h
+    split at h
+    · cases h
+    · rename_i hn
+      split at h
+      · cases h
+      · rename_i hc
+        injection h with h1 h2
+        refine ⟨by omega, by simpa using hn, ?_, h1.symm, h2.symm⟩
+        cases he : g.allow.isEmpty <;> cases hm : g.allow.contains u.to <;> simp_all
+
+/-- **Every accepted use is of a non-negative amount**: `Accept` hands the amount to
+`sdk.NewCoins`, which panics on a negative coin, so a "negative transfer" can never enlarge a
+grant (and `MsgTransferRequest.ValidateBasic` refuses it before: `transfer_msg_amount_nonneg`). -/
+theorem accepted_use_nonneg {keep : Bool} {g g' : Grant} {u : Use} {del : Bool}
+    (h : acceptWith keep g u = .accept del g') : 0 ≤ u.amount := (acceptWith_inv h).1
 
 theorem accept_accounting {keep : Bool} {g g' : Grant} {u : Use} {del : Bool}
     (h : acceptWith keep g u = .accept del g') :
@@ -250,22 +255,14 @@ theorem accept_accounting {keep : Bool} {g g' : Grant} {u : Use} {del : Bool}
     ∧ (∀ d, 0 ≤ Coins.amountOf g'.limit d)
     ∧ (del = true ↔ ∀ d, Coins.amountOf g'.limit d = 0)
     ∧ g'.allow = (if keep then g.allow else []) := by
-  unfold acceptWith at h
-  simp only at h
-  split at h
-  · cases h
-  · split at h
-    · cases h
-    · rename_i hn _
-      injection h with h1 h2
-      subst h2
-      refine ⟨?_, ?_, ?_, rfl⟩
-      · intro d; simp
-      · simp only [Bool.not_eq_true, Bool.not_eq_false'] at hn
-        intro d
-        have := (nonneg_iff _).mp hn d
-        simpa using this
-      · rw [← h1]; exact isZero_iff _
+  obtain ⟨_, hn, _, h1, h2⟩ := acceptWith_inv h
+  subst h2
+  refine ⟨?_, ?_, ?_, rfl⟩
+  · intro d; simp
+  · intro d
+    have := (nonneg_iff _).mp hn d
+    simpa using this
+  · rw [h1]; exact isZero_iff _
 
 /-- what is left of a stored grant (nothing once it is deleted) -/
 def remaining : Option Grant → Denom → Int
@@ -292,6 +289,7 @@ theorem useSeq_accounting (keep : Bool) (us : List Use) (g : Grant)
     cases h : acceptWith keep g u with
     | rejectLimit => simpa using ih g hg
     | rejectRecipient => simpa using ih g hg
+    | panicNegative => simpa using ih g hg
     | accept del g' =>
       obtain ⟨hacc, hnn, hdel, _⟩ := accept_accounting h
       cases del with
@@ -322,6 +320,92 @@ example : Coins.nonneg ([("tok", 10), ("zzz", 2)] : Coins) = true
         [⟨"tok", 4, "A"⟩, ⟨"tok", 7, "A"⟩, ⟨"zzz", 2, "B"⟩, ⟨"tok", 6, "C"⟩, ⟨"tok", 1, "C"⟩]).2
       = [⟨"tok", 4, "A"⟩, ⟨"zzz", 2, "B"⟩, ⟨"tok", 6, "C"⟩] := by decide
 
+/-! ### Sign of the amounts
+
+`WithinLimit` bounds a SIGNED sum; it says what the property means only if no accepted amount is
+negative. That is so: `Accept` itself cannot be made to take a negative amount (`sdk.NewCoins`
+panics inside `SafeSub`, replayed on the real function: corpus/C12 `use -5tok`), and
+`MsgTransferRequest.ValidateBasic` / the ibc `MsgTransfer.ValidateBasic` refuse the message before
+(`transfer_msg_amount_nonneg`). Hence the bound on the sum of the POSITIVE amounts, and on every
+single accepted amount. -/
+
+/-- Every accepted use of any sequence of attempts (any amounts, negative ones included among
+the attempts) is of a non-negative amount. -/
+theorem useSeq_accepted_nonneg (keep : Bool) (us : List Use) (st : Option Grant) :
+    ∀ u ∈ (useSeqWith keep st us).2, 0 ≤ u.amount := by
+  induction us generalizing st with
+  | nil => intro u hu; simp [useSeqWith] at hu
+  | cons v rest ih =>
+    cases st with
+    | none => intro u hu; simp [useSeq_none] at hu
+    | some g =>
+      intro u hu
+      simp only [useSeqWith, authzHandlerWith] at hu
+      cases h : acceptWith keep g v with
+      | rejectLimit => rw [h] at hu; exact ih _ u hu
+      | rejectRecipient => rw [h] at hu; exact ih _ u hu
+      | panicNegative => rw [h] at hu; exact ih _ u hu
+      | accept del g' =>
+        rw [h] at hu
+        have hv := accepted_use_nonneg h
+        cases del <;> simp only [List.mem_cons] at hu <;> rcases hu with rfl | hu
+        · exact hv
+        · exact ih _ u hu
+        · exact hv
+        · exact ih _ u hu
+
+theorem movedPos_eq_moved {us : List Use} (h : ∀ u ∈ us, 0 ≤ u.amount) (d : Denom) :
+    movedPos us d = moved us d := by
+  induction us with
+  | nil => rfl
+  | cons u rest ih =>
+    have h0 := h u (List.mem_cons_self ..)
+    have := ih (fun v hv => h v (List.mem_cons_of_mem _ hv))
+    simp only [movedPos, moved, this]
+    by_cases hd : u.denom = d <;> by_cases hp : 0 < u.amount <;> simp [hd, hp] <;> omega
+
+theorem moved_nonneg {us : List Use} (h : ∀ u ∈ us, 0 ≤ u.amount) (d : Denom) : 0 ≤ moved us d := by
+  induction us with
+  | nil => simp [moved]
+  | cons u rest ih =>
+    have h0 := h u (List.mem_cons_self ..)
+    have := ih (fun v hv => h v (List.mem_cons_of_mem _ hv))
+    simp only [moved]
+    split <;> omega
+
+theorem mem_le_moved {us : List Use} (h : ∀ u ∈ us, 0 ≤ u.amount) {u : Use} (hu : u ∈ us) :
+    u.amount ≤ moved us u.denom := by
+  induction us with
+  | nil => cases hu
+  | cons v rest ih =>
+    have hr : ∀ w ∈ rest, 0 ≤ w.amount := fun w hw => h w (List.mem_cons_of_mem _ hw)
+    have h0 := h v (List.mem_cons_self ..)
+    simp only [moved]
+    rcases List.mem_cons.mp hu with rfl | hu'
+    · have := moved_nonneg hr u.denom
+      simp only [if_true]; omega
+    · have := ih hr hu'
+      split <;> omega
+
+/-- **The granted limit is never exceeded — counting only what was really moved**: over any
+sequence of attempted uses (any amounts of either sign, any recipients), the sum of the POSITIVE
+accepted amounts stays within the original limit, denom by denom; and each accepted amount lies
+between 0 and the limit of its denom. -/
+theorem limit_never_exceeded_pos (keep : Bool) (g : Grant) (us : List Use)
+    (hg : Coins.nonneg g.limit = true) :
+    WithinLimitPos g (useSeqWith keep (some g) us).2
+    ∧ ∀ u ∈ (useSeqWith keep (some g) us).2, 0 ≤ u.amount ∧ u.amount ≤ Coins.amountOf g.limit u.denom := by
+  have hnn := useSeq_accepted_nonneg keep us (some g)
+  have hw := limit_never_exceeded keep g us hg
+  refine ⟨fun d => ?_, fun u hu => ⟨hnn u hu, ?_⟩⟩
+  · rw [movedPos_eq_moved hnn d]; exact hw d
+  · exact Int.le_trans (mem_le_moved hnn hu) (hw u.denom)
+
+-- non-vacuity: attempts with negative amounts among them; none is accepted, the others are
+example : (useSeqWith true (some { limit := [("tok", 10)], allow := [] })
+      [⟨"tok", -5, "A"⟩, ⟨"tok", 4, "A"⟩, ⟨"tok", -1, "B"⟩, ⟨"tok", 7, "A"⟩, ⟨"tok", 6, "C"⟩]).2
+      = [⟨"tok", 4, "A"⟩, ⟨"tok", 6, "C"⟩] := by decide
+
 /-- A use is accepted exactly when the stored grant covers it (11_authorization.md). -/
 theorem authzHandler_ok_iff (keep : Bool) (stored : Option Grant) (u : Use) :
     (∃ s', authzHandlerWith keep stored u = .ok s') ↔ grantCovers stored u = true := by
@@ -329,6 +413,11 @@ theorem authzHandler_ok_iff (keep : Bool) (stored : Option Grant) (u : Use) :
   | none => simp [authzHandlerWith, grantCovers]
   | some g =>
     simp only [authzHandlerWith, acceptWith, grantCovers]
+    by_cases hneg : u.amount < 0
+    · have : ¬ (0 ≤ u.amount) := by omega
+      simp [hneg, this]
+    have hnn : 0 ≤ u.amount := by omega
+    simp only [hneg, if_false, hnn, decide_true, Bool.true_and]
     cases h1 : Coins.nonneg (Coins.sub g.limit [(u.denom, u.amount)]) <;>
       cases h2 : g.allow.isEmpty <;> cases h3 : g.allow.contains u.to <;>
       cases hz : Coins.isZero (Coins.sub g.limit [(u.denom, u.amount)]) <;> simp
@@ -349,23 +438,18 @@ theorem recipients_on_allow_list_when_kept (g : Grant) (us : List Use) :
     cases h : acceptWith true g₁ u with
     | rejectLimit => rw [h] at hv; exact ih g₁ hal v hv
     | rejectRecipient => rw [h] at hv; exact ih g₁ hal v hv
+    | panicNegative => rw [h] at hv; exact ih g₁ hal v hv
     | accept del g' =>
       rw [h] at hv
       obtain ⟨_, _, _, hal'⟩ := accept_accounting h
       have hto : u.to ∈ g.allow := by
-        unfold acceptWith at h
-        simp only at h
-        split at h
-        · cases h
-        · split at h
-          · cases h
-          · rename_i _ hc
-            rw [hal] at hc
-            have : g.allow.isEmpty = false := by
-              cases hg : g.allow with
-              | nil => exact absurd hg hne
-              | cons _ _ => rfl
-            simpa [this] using hc
+        have hc := (acceptWith_inv h).2.2.1
+        rw [hal] at hc
+        have : g.allow.isEmpty = false := by
+          cases hg : g.allow with
+          | nil => exact absurd hg hne
+          | cons _ _ => rfl
+        simpa [this] using hc
       cases del with
       | true =>
         simp only [useSeq_none, List.mem_cons, List.not_mem_nil, or_false] at hv
@@ -388,22 +472,17 @@ theorem first_recipient_on_allow_list_partial (keep : Bool) (g : Grant) (us : Li
     cases h : acceptWith keep g v with
     | rejectLimit => rw [h] at hacc; exact ih hacc
     | rejectRecipient => rw [h] at hacc; exact ih hacc
+    | panicNegative => rw [h] at hacc; exact ih hacc
     | accept del g' =>
       rw [h] at hacc
       have hv : v = u := by cases del <;> simp at hacc <;> exact hacc.1
       subst hv
-      unfold acceptWith at h
-      simp only at h
-      split at h
-      · cases h
-      · split at h
-        · cases h
-        · rename_i _ hc
-          have : g.allow.isEmpty = false := by
-            cases hg : g.allow with
-            | nil => exact absurd hg hne
-            | cons _ _ => rfl
-          simpa [this] using hc
+      have hc := (acceptWith_inv h).2.2.1
+      have : g.allow.isEmpty = false := by
+        cases hg : g.allow with
+        | nil => exact absurd hg hne
+        | cons _ _ => rfl
+      simpa [this] using hc
 
 example : (useSeqWith false (some { limit := [("tok", 10)], allow := ["B"] })
       [⟨"tok", 3, "C"⟩, ⟨"tok", 3, "B"⟩, ⟨"tok", 3, "C"⟩]).2 = [⟨"tok", 3, "B"⟩, ⟨"tok", 3, "C"⟩] := by decide
@@ -611,6 +690,7 @@ theorem authzHandler_accounting {keep : Bool} {stored s' : Option Grant} {u : Us
     cases ha : acceptWith keep g u with
     | rejectLimit => rw [ha] at h; cases h
     | rejectRecipient => rw [ha] at h; cases h
+    | panicNegative => rw [ha] at h; cases h
     | accept del g' =>
       rw [ha] at h
       obtain ⟨hacc, hnn, hdel, _⟩ := accept_accounting ha
@@ -706,6 +786,8 @@ theorem transfer_msg_effect {keep : Bool} {t t' : AuthzStore} {m : TMsg} (h : m.
   cases ibc
   · -- MsgTransferRequest
     simp only [TMsg.runWith, transferMsgWith, Bool.false_eq_true, if_false] at h
+    split at h
+    · cases h
     cases hr : transferCoinWith keep c { x with selfFrom := admin == from_, stored := t (from_, admin) } with
     | error e => rw [hr] at h; cases h
     | ok s' =>
@@ -752,6 +834,8 @@ theorem transfer_msg_needs_the_sources_grant {keep : Bool} {t t' : AuthzStore} {
     obtain ⟨ibc, admin, from_, c, x⟩ := m
     cases ibc
     · simp only [TMsg.runWith, transferMsgWith, Bool.false_eq_true, if_false] at h
+      split at h
+      · cases h
       cases hr : transferCoinWith keep c { x with selfFrom := admin == from_, stored := t (from_, admin) } with
       | error e => rw [hr] at h; cases h
       | ok s' =>
@@ -797,7 +881,9 @@ theorem transfer_msg_ignores_other_grants (keep : Bool) (t₁ t₂ : AuthzStore)
   simp only at h
   cases ibc
   · simp only [TMsg.runWith, transferMsgWith, Bool.false_eq_true, if_false, h]
-    cases transferCoinWith keep c { x with selfFrom := admin == from_, stored := t₂ (from_, admin) } <;> simp
+    split
+    · simp
+    · cases transferCoinWith keep c { x with selfFrom := admin == from_, stored := t₂ (from_, admin) } <;> simp
   · simp only [TMsg.runWith, ibcTransferMsgWith, if_true, h]
     split
     · simp
@@ -911,6 +997,70 @@ theorem no_grant_nothing_charged (keep : Bool) (ms : List TMsg) (t : AuthzStore)
   have hr := msgSeq_refines_useSeq keep ms t p
   rw [ht, useSeq_none] at hr
   exact (Prod.mk.inj hr).2.symm
+
+/-- **A transfer message with a negative amount is refused** (`ValidateBasic`, before the marker,
+the rights or the grant are looked at); an ibc transfer needs a positive one. -/
+theorem transfer_msg_amount_nonneg {keep : Bool} {t t' : AuthzStore} {m : TMsg}
+    (h : m.runWith keep t = .ok t') : 0 ≤ m.x.use.amount ∧ (m.ibc = true → 0 < m.x.use.amount) := by
+  obtain ⟨ibc, admin, from_, c, x⟩ := m
+  cases ibc
+  · simp only [TMsg.runWith, transferMsgWith, Bool.false_eq_true, if_false] at h
+    split at h
+    · cases h
+    · rename_i hv
+      simp only [validateBasicTransfer, Bool.not_eq_true', decide_eq_false_iff_not, Decidable.not_not] at hv
+      exact ⟨hv, fun hh => by cases hh⟩
+  · simp only [TMsg.runWith, if_true] at h
+    have hpos : 0 < x.use.amount := (ibc_transfer_msg_requires_right_and_senders_grant h).2.2.1
+    exact ⟨Int.le_of_lt hpos, fun _ => hpos⟩
+
+/-- Every use charged to a grant in any history of transfer messages is of a non-negative amount. -/
+theorem charged_uses_nonneg (keep : Bool) (ms : List TMsg) (t : AuthzStore) :
+    ∀ e ∈ (msgSeqWith keep t ms).2, 0 ≤ e.2.amount := by
+  induction ms generalizing t with
+  | nil => intro e he; simp [msgSeqWith] at he
+  | cons m rest ih =>
+    intro e he
+    simp only [msgSeqWith] at he
+    cases h : m.runWith keep t with
+    | error err => rw [h] at he; exact ih t e he
+    | ok t' =>
+      rw [h] at he
+      simp only at he
+      split at he
+      · rcases List.mem_cons.mp he with rfl | he'
+        · exact (transfer_msg_amount_nonneg h).1
+        · exact ih t' e he'
+      · exact ih t' e he
+
+/-- **Across any sequence of transfer messages of both kinds the total really moved under each
+grant — the sum of the positive amounts — never exceeds that grant's limit**, and every single
+transfer charged to it is between 0 and the limit. -/
+theorem transfer_messages_within_each_grant_pos (keep : Bool) (ms : List TMsg) (t : AuthzStore) (p : Pair)
+    (g : Grant) (ht : t p = some g) (hg : Coins.nonneg g.limit = true) :
+    WithinLimitPos g (usesOf p (msgSeqWith keep t ms).2)
+    ∧ ∀ u ∈ usesOf p (msgSeqWith keep t ms).2, 0 ≤ u.amount ∧ u.amount ≤ Coins.amountOf g.limit u.denom := by
+  have h := limit_never_exceeded_pos keep g (usesOf p (msgSeqWith keep t ms).2) hg
+  have hr := msgSeq_refines_useSeq keep ms t p
+  rw [ht] at hr
+  rw [hr] at h
+  exact h
+
+/-- …and likewise for histories of `MsgTransferRequest`s under one grant. -/
+theorem transfers_under_grant_within_limit_pos (keep : Bool) (c : Cfg) (g : Grant) (xs : List Xfer)
+    (hg : Coins.nonneg g.limit = true) :
+    WithinLimitPos g (transferSeqWith keep c (some g) xs).2 := by
+  have h := (limit_never_exceeded_pos keep g (transferSeqWith keep c (some g) xs).2 hg).1
+  rw [transferSeq_refines_useSeq] at h
+  exact h
+
+-- non-vacuity: a negative transfer message is refused, the grant stays what it was
+example :
+    let t : AuthzStore := AuthzStore.empty.put ("S", "C") (some { limit := [("mkrtok", 10)], allow := [] })
+    let x : Xfer := { exXfer { exModuleLike with seqNonZero := true } none with use := ⟨"mkrtok", -5, "P1"⟩ }
+    (TMsg.runWith true t ⟨false, "C", "S", exCfg [.transfer] .active .restricted, x⟩).toOption.isSome = false
+    ∧ (TMsg.runWith true t ⟨true, "C", "S", exCfg [.transfer] .active .restricted, x⟩).toOption.isSome = false := by
+  decide
 
 -- non-vacuity: a history with both endpoints, two administrators and grants in both
 -- directions: each transfer is charged to the grant source → signer, the others stay
